@@ -1,6 +1,6 @@
 SPECIFICATION TSpec
 CONSTANTS Insts = {1, 2}
-NB = 11
+NB = 12
 MaxHist = 1000
 D1_PredsClassLevel = FALSE
 D2_NoResetOnFailure = FALSE
